@@ -13,8 +13,9 @@ TEXT = {
             "their base. 'Arbitrary character soup' unrelated to any base is not searched.",
     "assumptions": [
         "scope: the fault closure of a finite base set, not all unicode strings",
-        "termination is judged in simulated steps (loop back-edges in repository code), budget 30 x base + 20000; the 5 s "
-        "wall-clock timer only selects which inputs are re-run under the step clock",
+        "termination is judged in simulated steps (loop back-edges in repository code) against a flat budget of 1e7; the "
+        "2 s wall-clock timer only selects which inputs are re-run under the step clock, so a slow or loaded machine "
+        "cannot cause a violation, and a terminating but super-linear parse is recorded as slow, not as a violation",
         "outcome classes allowed: ast.Module/ast.Expression, SyntaxError (incl. IndentationError), TokenError",
     ],
 }
